@@ -13,7 +13,7 @@ TRUSTED = [
     "hand model coq/theories/AssemblyA/Dense.v (as in C04) + theories/AssemblyA/CorrEquiv.v: the hypotheses of "
     "C03_relabel_scatter are checked as booleans on the arrays the library produced for a grid and for its transformed copy, "
     "the model is evaluated on both, and the conclusion is checked on the two matrices the library assembled",
-    "translators/py_kernels.py (Laplace kernels regenerated from core/numba_kernels.py for the kernel theorems)",
+    "translators/py_kernels.py (all scalar kernels regenerated from core/numba_kernels.py for the kernel theorems)",
     "surrogate-kernel device and .py_func execution of the Numba loops in the correspondence",
     "Coq primitive 63-bit integers through Bignums BigZ (model evaluation only)",
 ]
@@ -21,9 +21,9 @@ ASSUMPTIONS = [
     "for local rotations / orientation flips the singular local values are only equal up to singular-quadrature error "
     "(hypothesis of the theorem); on the implementation this is exercised with polynomial surrogate kernels integrated exactly by "
     "order-4 Duffy rules and, for the real kernels, as convergence under order refinement in the search",
-    "kernel theorems (rigid invariance, homogeneity) are proved for the three Laplace kernels; Helmholtz / modified Helmholtz / "
-    "Maxwell kernels depend on x, y only through y-x and n and are exercised by the search; matrix homogeneity factors are "
-    "exercised by the search",
+    "kernel theorems (rigid invariance, homogeneity with k/s) cover all 18 scalar Green's-function kernels of numba_kernels.py "
+    "(coq/theories/Kernels/Invariance.v, shared with C08); the Maxwell integrand terms and the matrix-level homogeneity factors "
+    "are exercised by the search",
     "edge-space (RWG/SNC) basis functions under local rotation / flip are covered by the search only (the correspondence uses "
     "scalar spaces for these two transformations, edge spaces for relabelling with sign changes)",
 ]
@@ -141,18 +141,19 @@ def replay(ctx):
 META = {
     "technique": "Coq proof: relabelling / local-renumbering / sign equivariance and translation invariance of the dense assembly "
                  "model (any commutative ring), geometry-from-differences and orthogonal/scaling facts, rigid invariance and "
-                 "homogeneity of the Laplace kernels regenerated from the source (over R); tie by checking the theorem's hypotheses "
+                 "homogeneity of all scalar Green's-function kernels regenerated from the source (over R); tie by checking the theorem's hypotheses "
                  "and conclusion inside Coq on the arrays and matrices the library produces for transformed grids",
     "level_text": "Theorems in coq/props/C03.v: for all grids, spaces, element permutations, local index permutations (cyclic rotation, "
                   "flip), DOF renumberings and sign changes compatible with the DOF maps, and all local values carried along, the "
                   "assembled matrix is the permuted sign-changed matrix (regular part unconditionally, singular part under the stated "
                   "hypothesis on the singular local values); translation invariance of the assembled matrix for every translation-"
                   "invariant kernel; Jacobians/normals/integration elements depend on vertex differences only, are invariant under "
-                  "orthogonal maps and scale with s^4; the three Laplace kernels of numba_kernels.py are invariant under rigid motions "
-                  "and homogeneous of degree -1/-2.",
+                  "orthogonal maps and scale with s^4; all 18 scalar kernels of numba_kernels.py (Laplace, Helmholtz with complex k, "
+                  "modified Helmholtz; regular and singular variants) are invariant under rigid motions and homogeneous of degree "
+                  "-1/-2 with the wavenumber scaled by 1/s.",
     "level_note": "Trusted: Coq kernel, three real-number axioms of the standard library (kernel theorems), hand model + correspondence "
                   "(12 transformed-grid pairs per quick check), py_kernels translator. Not proved: equality of singular contributions "
-                  "under changed local vertex order (quadrature error, analytic), kernel invariance for the non-Laplace families, "
-                  "matrix homogeneity factors (exercised by the search on all families).",
+                  "under changed local vertex order (quadrature error, analytic), matrix homogeneity factors and the Maxwell "
+                  "integrand terms (exercised by the search on all families).",
     "design_ref": "DESIGN.md §7 C03",
 }
